@@ -457,4 +457,3 @@ func c06SortedKeys(m map[string]bool) []string {
 	sort.Strings(out)
 	return out
 }
-
